@@ -12,8 +12,12 @@
     COV <tag> <count>                                              model-branch coverage
     DONE lines=<n> histories=<h> diffs=<d> specs=<s> skipped=<k>
 
-  After a DIFF the rest of that history is skipped (model and implementation may have diverged);
-  the next line whose op starts with "new" starts a fresh history.
+  After a DIFF the model and the implementation may have diverged: for the rest of that history
+  the model's expected outputs are no longer compared (no further DIFF lines, counted as
+  `skipped`), but every line is still stepped so that the SPEC predicates — which depend only on
+  the operations and the implementation's own outputs — keep being evaluated and can turn a broken
+  correspondence into a concrete failing history.  The next line whose op starts with "new" starts
+  a fresh history.
 -/
 import Std.Data.HashMap
 namespace Ndn.Driver
@@ -61,8 +65,7 @@ partial def loop {σ : Type} (h : IO.FS.Stream) (out : IO.FS.Stream)
     let (op, got) := splitArrow line
     let isNew := op.startsWith "new"
     let s := if isNew then { s with hist := s.hist + 1, skipping := false, ntMarked := false } else s
-    if s.skipping then loop h out step { s with skipped := s.skipped + 1 }
-    else
+    do
       let r := step s.st op got
       let mut s := { s with st := r.st }
       for c in r.cov do
@@ -73,12 +76,15 @@ partial def loop {σ : Type} (h : IO.FS.Stream) (out : IO.FS.Stream)
       for f in r.spec do
         out.putStrLn s!"SPEC {s.line} {s.hist} | clause={f.clause} key={f.key} | {f.msg}"
         s := { s with specs := s.specs + 1 }
-      match r.expected with
-      | some e =>
-        if e != got then
-          out.putStrLn s!"DIFF {s.line} {s.hist} | {op} | model={e} | impl={got}"
-          s := { s with diffs := s.diffs + 1, skipping := true }
-      | none => pure ()
+      if s.skipping then
+        s := { s with skipped := s.skipped + 1 }
+      else
+        match r.expected with
+        | some e =>
+          if e != got then
+            out.putStrLn s!"DIFF {s.line} {s.hist} | {op} | model={e} | impl={got}"
+            s := { s with diffs := s.diffs + 1, skipping := true }
+        | none => pure ()
       loop h out step s
 
 def run {σ : Type} (init : σ) (step : σ → String → String → StepResult σ) : IO Unit := do
